@@ -1,11 +1,13 @@
 SPECIFICATION Spec
 CONSTANTS
   H = 4
+  NBufs = 2
+  Design = "own"
   MaxBlocks = 255
   ReadSizes = {0, 1, 2, 3, 4, 5, 7, 9, 1000, 1003, 1012, 1016, 1017, 1019, 1020, 1021}
   NearLo = 12
   NearHi = 1000
 CONSTRAINT NearEnds
-INVARIANTS TypeOK ImplInv
-PROPERTIES Refines AbsErrorConsumesNothing AbsContiguous AbsFailsExactlyBeyondLimit AbsZeroReadIsNoop
+INVARIANTS TypeOK ImplInv ReaderOwnsItsState
+PROPERTIES Refines AbsErrorConsumesNothing AbsContiguous AbsFailsExactlyBeyondLimit AbsZeroReadIsNoop AbsScribbleIsInvisible ScribbleKeepsReaderState
 CHECK_DEADLOCK FALSE
